@@ -93,6 +93,13 @@ func (p *Pipe) CloseWrite() {
 	p.mu.Unlock()
 }
 
+// WrittenBytes is the number of bytes ever written into the pipe.
+func (p *Pipe) WrittenBytes() int {
+	p.mu.Lock()
+	defer p.mu.Unlock()
+	return p.Written
+}
+
 // InFlight is the number of bytes written but not yet delivered.
 func (p *Pipe) InFlight() int {
 	p.mu.Lock()
